@@ -2,6 +2,7 @@
    Property theorems only; helper lemmas live in Proofs/CtxInv.lean. -/
 import XsdataModel.Proofs.CtxInv
 import XsdataModel.Proofs.CtxMemo
+import XsdataModel.Proofs.CtxEvict
 
 namespace Props.C14
 open Py Xs.Ctx
@@ -70,17 +71,61 @@ def evictU : Universe :=
        mname := some "T".toList, targetNs := none, moduleNs := none, globalType := true, inner := false,
        bad := false, fields := [⟨"x".toList, .element, none, none, none⟩] } ]⟩
 
-/-- (finding C14-F3) `local_names_match` evicts an unbuildable class from the
-list `find_type_by_fields` is iterating over, which makes the loop skip the next
-class: the first lookup finds nothing, the second one (same instance) finds `T2`;
-and `find_types` no longer reports the evicted class. -/
-theorem eviction_counterexample :
-    fresh evictU ⟨2, 0⟩ (.findTypeByFields ["x".toList]) = .gotType none ∧
+/-- the same two classes, the unbuildable one created last (so that it is the
+one `find_type` picks: `types[-1]`) -/
+def evictU2 : Universe := ⟨evictU.classes.reverse⟩
+
+/-- (finding C14-F3, what remains after 7df03d4) `local_names_match` still evicts
+an unbuildable class from the *published* index.  The by-fields lookup itself is
+repaired — first and second lookup agree with each other and with a fresh
+context — but afterwards `find_types` no longer reports the evicted class, a
+repeated direct `local_names_match` raises `ValueError`, and `find_type` can
+switch from the unbuildable class (fresh context: the parse then fails with
+`XmlContextError`) to a buildable namesake (shared context: the parse succeeds). -/
+theorem eviction_residual_counterexample :
+    fresh evictU ⟨2, 0⟩ (.findTypeByFields ["x".toList]) = .gotType (some 1) ∧
     (step evictU ⟨2, 0⟩ (run evictU State.init [(⟨2, 0⟩, .findTypeByFields ["x".toList])])
         (.findTypeByFields ["x".toList])).2 = .gotType (some 1) ∧
     fresh evictU ⟨2, 0⟩ (.findTypes "{urn:a}T".toList) = .gotTypes [0, 1] ∧
     (step evictU ⟨2, 0⟩ (run evictU State.init [(⟨2, 0⟩, .findTypeByFields ["x".toList])])
-        (.findTypes "{urn:a}T".toList)).2 = .gotTypes [1] := by
+        (.findTypes "{urn:a}T".toList)).2 = .gotTypes [1] ∧
+    fresh evictU ⟨2, 0⟩ (.localNamesMatch ["x".toList] 0) = .gotBool false ∧
+    (step evictU ⟨2, 0⟩ (run evictU State.init [(⟨2, 0⟩, .findTypeByFields ["x".toList])])
+        (.localNamesMatch ["x".toList] 0)).2 = .raised .value ∧
+    fresh evictU2 ⟨2, 0⟩ (.findType "{urn:a}T".toList) = .gotType (some 1) ∧
+    (step evictU2 ⟨2, 0⟩ (run evictU2 State.init [(⟨2, 0⟩, .findTypeByFields ["x".toList])])
+        (.findType "{urn:a}T".toList)).2 = .gotType (some 0) := by
+  decide
+
+/-- **history_independent_evicting** (new with 7df03d4): the third side condition
+of `history_independent_partial` is *not needed* for calls that do not read the
+index by qualified name.  For every history — by-fields lookups and
+`local_names_match` calls meeting unbuildable indexed classes, evictions and
+`ValueError`s included; only `fetch` with an xsi:type is excluded from the
+history — `build`, `fetch` without xsi:type, `serialize`, `find_type_by_fields`,
+`build_xsi_cache` and `reset` return on the shared context what they return on
+a fresh one, provided parent namespaces are consistent and `len(sys.modules)`
+is faithful.  In particular the first by-fields lookup equals every later one. -/
+theorem history_independent_evicting (U : Universe) (h : List (World × Op)) (w : World) (op : Op)
+    (hok : histOKW U Track.empty (h ++ [(w, op)])) (hblind : op.evictionBlind = true) :
+    (step U w (run U State.init h) op).2 = fresh U w op := by
+  obtain ⟨t', hI, hnext⟩ :=
+    run_invW h Track.empty State.init (InvR.init U _) (histOKW_prefix h _ _ hok)
+  have hstep := hnext w op hok
+  rw [(stepW_spec hI hstep).2 hblind]
+  exact ((stepW_spec (InvR.init U Track.empty) (okStepW_empty hstep)).2 hblind).symm
+
+/-- the hypotheses hold for a history that evicts `T`, hits the `ValueError`
+and then looks up by fields again -/
+example : histOKW evictU Track.empty
+    [(⟨2, 0⟩, .findTypeByFields ["x".toList]), (⟨2, 0⟩, .localNamesMatch ["x".toList] 0),
+     (⟨2, 0⟩, .findTypes "{urn:a}T".toList), (⟨2, 0⟩, .build 1 none),
+     (⟨2, 0⟩, .findTypeByFields ["x".toList])] ∧
+    (Op.findTypeByFields ["x".toList]).evictionBlind = true := by
+  decide
+
+/-- whereas that history is outside `histOK` (condition iii) -/
+example : ¬ histOK evictU Track.empty [(⟨2, 0⟩, .findTypeByFields ["x".toList])] := by
   decide
 
 /-- **Refinement**: under the side conditions a call on the shared context
@@ -100,9 +145,13 @@ theorem fresh_refines_spec (U : Universe) (w : World) (op : Op) (hok : okStep U 
 /-- **history_independent_partial**: the statement holds for every history in
 which (i) no class without `Meta.namespace` is requested under two different
 parent namespaces, (ii) `len(sys.modules)` changes whenever the set of loaded
-classes does, (iii) `find_type_by_fields` / `local_names_match` never meet an
-indexed class whose metadata cannot be built — all three decidable, checked
-call by call by `histOK`.  Failing calls are allowed anywhere in the history. -/
+classes does, (iii) nothing has been evicted from the index:
+`find_type_by_fields` / `local_names_match` never meet an indexed class whose
+metadata cannot be built — all three decidable, checked call by call by
+`histOK`.  Failing calls are allowed anywhere in the history.  Since 7df03d4
+condition (iii) matters only for calls that read the index by qualified name
+(`find_types`, `find_type`, `find_subclass`, `fetch` with xsi:type); for all
+other calls see `history_independent_evicting`. -/
 theorem history_independent_partial (U : Universe) (h : List (World × Op)) (w : World) (op : Op)
     (hok : histOK U Track.empty (h ++ [(w, op)])) :
     (step U w (run U State.init h) op).2 = fresh U w op := by
